@@ -401,6 +401,7 @@ func tamperScenario() explore.Scenario {
 				if err := ref.UnmarshalVT(data); err != nil {
 					panic(err)
 				}
+				seenClass := map[string]bool{}
 				for ti, t := range tampers(&ref) {
 					var st key_storage.Storage
 					if err := st.UnmarshalVT(data); err != nil {
@@ -444,6 +445,59 @@ func tamperScenario() explore.Scenario {
 						x.FailKey("tamper/"+strings.Fields(t.name)[0], "state %v, tamper %q: a key retrieval still succeeded (%v)", live, t.name, tags)
 					default:
 						informational++
+					}
+					// a legitimate slot operation in between must not launder the alteration: whatever it does,
+					// the next retrieval of every slot that is still there must fail as well (one alteration of
+					// each class per state, one delete and one add)
+					class := strings.Fields(t.name)[0]
+					if !(allFail && t.mustDetect && uerr == nil) || seenClass[class] {
+						continue
+					}
+					seenClass[class] = true
+					var between []string
+					nl, firstLive, free := 0, -1, -1
+					for s, k := range live {
+						if k >= 0 {
+							nl++
+							if firstLive < 0 {
+								firstLive = s
+							}
+						} else if free < 0 {
+							free = s
+						}
+					}
+					if nl >= 2 {
+						for s := 2; s >= 0; s-- {
+							if live[s] >= 0 {
+								between = append(between, fmt.Sprintf("del %d %d", s, live[s]))
+								break
+							}
+						}
+					}
+					if free >= 0 {
+						between = append(between, fmt.Sprintf("add %d %d %d %d", free, (live[firstLive]+1)%3, firstLive, live[firstLive]))
+					}
+					for _, op := range between {
+						ks2 := &keystorage.KeyStorage{}
+						if err := ks2.UnmarshalBinary(tdata); err != nil {
+							continue
+						}
+						cases++
+						res := realApply(ks2, op)
+						var a, b int
+						if strings.HasPrefix(op, "del ") {
+							fmt.Sscanf(op, "del %d %d", &a, &b)
+						} else {
+							a = -1
+						}
+						for s, k := range live {
+							if k < 0 || s == a && res == "ok" {
+								continue
+							}
+							if _, gerr := ks2.GetMasterKey(slots[s], keys[k].priv); gerr == nil {
+								x.FailKey("tamper-then-op/"+class, "state %v, tamper %q, then %q (-> %s): GetMasterKey(slot %d) succeeds - the alteration is no longer detected", live, t.name, op, res, s)
+							}
+						}
 					}
 				}
 			}
